@@ -92,7 +92,26 @@ def run_one(item, tier="quick", runs=None, seed=None):
         shutil.rmtree(tmp, ignore_errors=True)
 
 
+def benign():
+    items = []
+    for d in sorted(glob.glob(os.path.join(VERIF, "seeded_benign", "*"))):
+        if os.path.exists(os.path.join(d, "patch.diff")):
+            for prop in ("C01", "C02", "C13", "C15"):
+                items.append({"id": "seeded_benign/" + os.path.basename(d), "patch": os.path.join(d, "patch.diff"),
+                              "prop": prop, "source": "benign"})
+    return items
+
+
 def main(what="sensitivity", tier="quick", only=None):
+    if what == "benign":
+        # behaviour-preserving refactors: every check must stay quiet (exit 0)
+        res = [run_one(it, tier) for it in benign()]
+        loud = [(r["id"], r["prop"]) for r in res if r.get("exit") != 0]
+        for r in res:
+            print(f"[benign] {r['id']:<50} {r['prop']} exit={r.get('exit')} {r.get('tail', '')[:90]}", flush=True)
+        json.dump({"results": res}, open(os.path.join(VERIF, "selftest", "benign_report.json"), "w"), indent=1)
+        print(f"[benign] {len(res)} check runs, alarms: {loud}")
+        return 2 if loud else 0
     items = mutants()
     if only:
         items = [i for i in items if any(o in i["id"] for o in only)]
